@@ -552,7 +552,15 @@ class Expander:
             dispatch.append((np, ident))
         missing = set(armspecs) - used
         if missing:
-            raise LostAnchor('%s: template arms not found in source: %s' % (qual, sorted(missing)))
+            # the match was re-shaped (arms merged, split or renamed): not fatal.  The source arms that replaced them were
+            # handled above with the shared contract only (and lose their verdict if that is not enough); record the
+            # template arms that no longer exist so that the run is reported as degraded, never as a full proof.
+            for mname in sorted(missing):
+                lost_name = '%s::%s__%s' % (qual.split('::')[0], fname, pat_ident(mname))
+                self.lost[lost_name] = '%s: template arm `%s` not found in the source (match re-shaped)' % (qual, mname)
+                self.record(rel, qual, s, fn, lost_name, True, arm=mname, props=top.props)
+                self.functions[-1]['lost'] = self.lost[lost_name]
+                self.functions[-1]['unit_lines'] = None
         # dispatcher: verified against the shared contract
         hdr, name = self.signature(fn['sig'], top, alias)
         name = alias or name
